@@ -33,6 +33,10 @@ def check(repo: Repo, rep, tier):
 
     fmt_no_cache(repo, rep)
     fmt_degrade(repo, rep)
+    from .C04 import configure
+
+    # the format-command is part of the project's configuration: it has to be read, from the project
+    configure(repo, rep)
     stale_bindings(repo, rep, {"config"}, "e.g. a copied `config` never sees the format-command of the session, so whole-file and fragment formatting disagree")
 
 
@@ -84,9 +88,30 @@ def result_unmodified(repo: Repo, rep):
     wcfg = cfg_of(w)
     writes = [(n, c) for n in wcfg.live for c in node_calls(n) if isinstance(c.func, ast.Attribute) and c.func.attr in ("write", "write_text", "write_bytes") and c.args]
     rep.floor("R-FORMAT-RESULT", "write sites in rewrite", len(writes), 1)
+    def _only_bom(e) -> bool:
+        # a byte order mark (or nothing): `codecs.BOM_UTF8`, b"\xef\xbb\xbf", b"", a conditional between them
+        if isinstance(e, ast.IfExp):
+            return _only_bom(e.body) and _only_bom(e.orelse)
+        if isinstance(e, ast.Attribute):
+            return e.attr == "BOM_UTF8"
+        return isinstance(e, ast.Constant) and e.value in (b"", b"\xef\xbb\xbf")
+
     for n, c in writes:
         a = c.args[0]
-        base = a
+        if _only_bom(a):
+            rep.ok("R-FORMAT-RESULT", w, c, "writes the byte order mark of the original file")
+            continue
+        # <mark> + new_code().encode(): the mark is no part of the code
+        parts = []
+        stack = [a]
+        while stack:
+            x = stack.pop()
+            if isinstance(x, ast.BinOp) and isinstance(x.op, ast.Add):
+                stack += [x.left, x.right]
+            else:
+                parts.append(x)
+        payload = [x for x in parts if not _only_bom(x)]
+        base = payload[0] if len(payload) == 1 else a
         if isinstance(base, ast.Call) and isinstance(base.func, ast.Attribute) and base.func.attr == "encode":
             base = base.func.value
         if isinstance(base, ast.Name):
@@ -209,6 +234,24 @@ def mode_table(repo: Repo, rep):
             rep.violation("R-MODE-TABLE", f, c, f"`{short(c, 60)}` fixes an option ({short(own[0], 40)}) that does not come from the project's black configuration: files that `black` itself accepts are judged 'not formatted' (the final pass is skipped) or are re-wrapped differently", construct="mode-ctor-args")
         else:
             rep.ok("R-MODE-TABLE", f, c, "Mode() starts from black's defaults")
+    # the Mode handed out is the one built in this call for this path: not an object kept in a config / module attribute
+    for r in cfg.stmts(ast.Return):
+        v = r.ast.value
+        if v is None:
+            continue
+        if (isinstance(v, ast.Name) and v.id in mode_vars) or _mode_ctor(v):
+            rep.ok("R-MODE-TABLE", f, r.ast, "returns the Mode built in this call")
+        elif f.name == "format_code" or not mode_vars:
+            continue
+        else:
+            rep.violation(
+                "R-MODE-TABLE",
+                f,
+                r.ast,
+                f"{f.qualname} returns `{short(v, 40)}`, not the Mode it has just built for this path: a Mode kept across calls (session config, module attribute) belongs to the first file that was formatted - "
+                "files of another project / another Example in the same process are formatted with its options",
+                construct="mode-not-local",
+            )
     found = {}
     for n in cfg.stmts(ast.Assign):
         for t in n.ast.targets:
